@@ -323,7 +323,7 @@ def _if_modular(ps):
         has_override = c.choice('has_override', [False, True])
         ov = c.int('override', 0, 65535) if has_override else None
         c.let('first', ov if has_override else c.get('sp'))
-        image = c.seq('image', 'bytes')
+        image = c.seq('image', 'list')
         c.require('len(image) >= 1 and len(image) <= %d * ps' % MAXPAGES)
         oks = [c.bool('ok%d' % i) for i in range(MAXPAGES + 1)]
         it = iter(oks)
@@ -337,5 +337,5 @@ def _if_modular(ps):
     return if_modular
 
 
-for _ps in (1, 3, 1024):
+for _ps in (1, 2, 3, 16, 64):
     _if_modular(_ps)
